@@ -104,6 +104,16 @@ impl Case {
     }
 }
 
+/// one chunk through `fmt::Write`: a single character through `write_char`, anything else through `write_str`
+fn emit(w: &mut DiplomatWrite, ch: &str) -> core::fmt::Result {
+    use core::fmt::Write;
+    let mut it = ch.chars();
+    match (it.next(), it.next()) {
+        (Some(c), None) => w.write_char(c),
+        _ => w.write_str(ch),
+    }
+}
+
 fn show_bytes(b: &[u8]) -> String {
     b.iter().map(|x| x.to_string()).collect::<Vec<_>>().join(",")
 }
@@ -124,7 +134,7 @@ pub fn run_real(c: &Case) -> (String, Vec<(String, serde_json::Value)>) {
             let mut expected: Vec<u8> = init.as_bytes().to_vec();
             let mut failed_seen = false;
             for ch in chunks {
-                let r = w.write_str(ch);
+                let r = emit(w, ch);
                 if r.is_err() {
                     fails.push(("write_str returned Err".to_string(), json!(ch)));
                 }
@@ -172,7 +182,7 @@ pub fn run_real(c: &Case) -> (String, Vec<(String, serde_json::Value)>) {
             let mut expected: Vec<u8> = vec![];
             let mut failed_seen = false;
             for ch in chunks {
-                let _ = w.write_str(ch);
+                let _ = emit(&mut w, ch);
                 let f = (*(&mut w as *mut DiplomatWrite as *mut RawWrite)).grow_failed;
                 wrote.push(if f { '0' } else { '1' });
                 if !f && !failed_seen {
@@ -212,7 +222,7 @@ pub fn run_real(c: &Case) -> (String, Vec<(String, serde_json::Value)>) {
             let mut wrote = String::new();
             let mut expected: Vec<u8> = vec![];
             for ch in chunks {
-                let _ = w.write_str(ch);
+                let _ = emit(&mut *w, ch);
                 let f = (*(wp as *mut RawWrite)).grow_failed;
                 wrote.push(if f { '0' } else { '1' });
                 expected.extend_from_slice(ch.as_bytes());
